@@ -93,3 +93,52 @@ def k7_probe():
         return problems
     finally:
         shutil.rmtree(work, ignore_errors=True)
+
+
+def k19_probe():
+    """An explicit lexicalized / phonemic = True (known finding K19): compared strictly, key by key."""
+    from wn import lmf
+    work = tempfile.mkdtemp(prefix='wnrt')
+    try:
+        lex = lmfgen.full_lexicon('1.1')
+        lex['synsets'][0]['lexicalized'] = True
+        lex['entries'][0]['senses'][0]['lexicalized'] = True
+        path = os.path.join(work, 'k19.xml')
+        lmf.dump({'lmf_version': '1.1', 'lexicons': [lex]}, path)
+        got = lmf.load(path, progress_handler=None)['lexicons'][0]
+        problems = []
+        if 'lexicalized' not in got['synsets'][0]:
+            problems.append("/lexicons[0]/synsets[0]/lexicalized: only in expected (True)")
+        if 'lexicalized' not in got['entries'][0]['senses'][0]:
+            problems.append("/lexicons[0]/entries[0]/senses[0]/lexicalized: only in expected (True)")
+        return problems
+    finally:
+        shutil.rmtree(work, ignore_errors=True)
+
+
+def k24_probe():
+    """Text kept verbatim under xml:space="preserve" (known finding K24): dump never writes the attribute."""
+    from wn import lmf
+    work = tempfile.mkdtemp(prefix='wnrt')
+    try:
+        lex = lmfgen.full_lexicon('1.3')
+        path = os.path.join(work, 'a.xml')
+        lmf.dump({'lmf_version': '1.3', 'lexicons': [lex]}, path)
+        text = open(path, encoding='utf-8').read()
+        import re
+        text2, n = re.subn(r'<Definition([^>]*)>[^<]*</Definition>',
+                           r'<Definition\1 xml:space="preserve">line one\n   line two</Definition>', text, count=1)
+        if not n:
+            return ['harness: no <Definition> element to rewrite']
+        src = os.path.join(work, 'b.xml')
+        open(src, 'w', encoding='utf-8').write(text2)
+        r1 = lmf.load(src, progress_handler=None)
+        out = os.path.join(work, 'c.xml')
+        lmf.dump(r1, out)
+        r2 = lmf.load(out, progress_handler=None)
+
+        def defs(r):
+            return [d['text'] for ss in r['lexicons'][0]['synsets'] for d in ss.get('definitions', [])]
+        return [f'definition text {a!r} reloaded as {b!r}' for a, b in zip(defs(r1), defs(r2)) if a != b]
+    finally:
+        shutil.rmtree(work, ignore_errors=True)
